@@ -1095,7 +1095,7 @@ def _psfphot(case):
     grouper = SourceGrouper(8.0) if variant == 'grouped' else None
     use_nddata = rng.random() < 0.25
     resid_in = None
-    if unit is None and ax.random() < 0.15:
+    if unit is None and ax.random() < 0.35:
         # axis (vii): a narrow-dtype image.  The fit runs on the float64 copy of exactly the values the dtype holds;
         # make_residual_image is then given the narrow array itself (or an NDData holding it)
         dt = str(ax.choice(['f4', 'f2', 'u1', 'u2', 'i2', 'i4', 'u4']))
